@@ -409,7 +409,10 @@ def fmt_seg(s, term='~', ele='*', sub=':', icvn='00401', rep=None):
     els = [sub.join(x) for x in s.vals]
     while els and els[-1] == '':
         els.pop()
-    return s.id + ele + ele.join(els) + term
+    # spelling defects the reader itself reports: blanks in front of the identifier, separators after the last element
+    lead = ' ' if 'lead-blank' in s.tags else ''
+    trail = ele if 'trail-sep' in s.tags else ''
+    return lead + s.id + ele + ele.join(els) + trail + term
 
 
 def pad_to_boundary(doc, term='~', ele='*', sub=':', eol='\n', rep=None, delta=-1, bufsize=8192, header=106):
